@@ -167,8 +167,9 @@ def bisimulate(a0, b0, spec, ordered, problems, fwd=None, rev=None, stats=None):
                 if vb is None or not isinstance(vb, (list, set)):
                     problems.append(f"{p2}: collection -> {type(vb).__name__}")
                     continue
-                if k == "set_ref" and not isinstance(vb, (set, list)):
-                    problems.append(f"{p2}: set -> {type(vb).__name__}")
+                if type(vb) is not type(va):
+                    # equal field values: a set stays a set, a list a list (and never the DAO's instrumented list)
+                    problems.append(f"{p2}: collection type {type(va).__name__} -> {type(vb).__name__}")
                 if ordered and k != "set_ref":
                     if len(va) != len(vb):
                         problems.append(f"{p2}: list of {len(va)} -> list of {len(vb)}")
